@@ -101,5 +101,11 @@ let handle (ws : string list) : string =
       let ad = List.map (fun g -> show_name g.g_owner ^ "/" ^ string_of_int (int_of_n g.g_type) ^ "/" ^ string_of_int (int_of_n g.g_ttl) ^ "/" ^ show_rd g.g_data) a.a_addl in
       let es = if errs = [] then "-" else String.concat "," (List.map (fun (i, e) -> string_of_int (int_of_n i) ^ ":" ^ err_word e) errs) in
       Printf.sprintf "%d %d AN=%s AU=%s AD=%s E=%s" rc (if a.a_aa then 1 else 0) an_s (set_show au) (set_show ad) es
+  | ["walk"] ->
+      let recs = List.concat_map (fun ((o, r), cut) ->
+        List.map (fun d -> show_name o ^ "/" ^ string_of_int (int_of_n r.rs_type) ^ "/" ^ string_of_int (int_of_n r.rs_ttl) ^ "/" ^ show_rd d ^ "/" ^ (if cut then "1" else "0")) r.rs_data) (c08_walk z) in
+      let recs = List.sort compare recs in
+      let es = if errs = [] then "-" else String.concat "," (List.map (fun (i, e) -> string_of_int (int_of_n i) ^ ":" ^ err_word e) errs) in
+      Printf.sprintf "W=%s E=%s" (if recs = [] then "-" else String.concat "," recs) es
   | _ -> failwith "bad query"
 let () = main handle
